@@ -49,12 +49,115 @@ def dnc_subclass_probe(chk, extra):
     extra["dnc_subclass_probe"] = {"cases": n, "failing": bad}
 
 
+def derive_all(obj):
+    import copy
+    return [("deepcopy", lambda: copy.deepcopy(obj)), ("with_n", lambda: obj.with_n(3)), ("update", lambda: obj.update(n=1)),
+            ("transform", lambda: obj.transform(n=lambda v: v + 1)), ("reset_n", lambda: obj.reset_n()),
+            ("update_n", lambda: obj.update_n(5))]
+
+
+def dnc_family_probe(chk, extra):
+    """implementation-only: the do_not_copy behaviour of a class does not depend on which of its
+    spec subclasses have been bootstrapped.  Parent P and sibling S instances are derived from
+    before and after the subclass Q (different do_not_copy list for inherited attributes) is first
+    used; both directions (parent copies / child shares, parent shares / child copies); lazy and
+    eager bootstrap."""
+    n = bad = 0
+    for eager in (False, True):
+        for parent_dnc, child_dnc in (((), ("xs", "ks")), (("xs", "ks"), ()), (("xs",), ("ks",))):
+            K, P, Q, S = c02_gen.dnc_family(parent_dnc, child_dnc, eager)
+            for first_use in ("before", "after"):
+                for cls, dnc in ((P, parent_dnc), (S, ()), (Q, child_dnc)):
+                    if first_use == "before" and cls is Q:
+                        continue
+                    obj = cls(xs=[1, 2], ks=[K("a")])
+                    for name, f in derive_all(obj):
+                        r = f()
+                        n += 1
+                        ok = r is not obj
+                        for a in ("xs", "ks"):
+                            same = getattr(r, a) is getattr(obj, a)
+                            ok = ok and (same if a in dnc else not same)
+                        if "ks" not in dnc:
+                            ok = ok and all(x is not y for x in r.ks for y in obj.ks)
+                        if not ok:
+                            bad += 1
+                            if bad <= 4:
+                                chk.violation("do_not_copy declaration of class %s not honoured by %s (%s its spec subclass was first used): shared xs=%s ks=%s, declared do_not_copy=%s"
+                                              % (cls.__name__, name, first_use, r.xs is obj.xs, r.ks is obj.ks, list(dnc)),
+                                              {"kind": "dnc-family", "eager": eager, "parent_dnc": list(parent_dnc),
+                                               "child_dnc": list(child_dnc), "class": cls.__name__, "call": name,
+                                               "when": first_use}, sig={"kind": "dnc-family"})
+                if first_use == "before":
+                    Q(xs=[0], ks=[])        # first use of the subclass (lazy bootstrap happens here)
+    extra["dnc_family_probe"] = {"cases": n, "failing": bad}
+
+
+def survivor_probe(chk, extra):
+    """implementation-only: reset() / reset_<attr>() on a copy when the reset of one attribute is
+    abandoned (its preparer needs an attribute that has no default and was removed first, so
+    re-preparing the default raises AttributeError, which reset() swallows): the surviving value
+    must be the copy's own object.  Oracle: no mutable object reachable from both result and receiver."""
+    from typing import Dict, List
+
+    from spec_classes import spec_class
+    K = spec_class(key="name")(type("K", (), {"__annotations__": {"name": str, "w": int}, "w": 0,
+                                              "__module__": "verif_generated", "__qualname__": "K"}))
+
+    def prep_list(self, v):
+        s = self.scale
+        return [x * s for x in v]
+
+    def prep_ks(self, v):
+        s = self.scale
+        return [k.with_w(k.w * s) for k in v]
+
+    def prep_d(self, v):
+        s = self.scale
+        return {k: x * s for k, x in v.items()}
+
+    def prep_k(self, v):
+        s = self.scale
+        return v.with_w(v.w * s) if isinstance(v, K) else v
+    n = bad = 0
+    for order in ("scale_first",):
+        ann = {"scale": int, "xs": List[int], "ks": List[K], "d": Dict[str, int], "k": K}
+        if order == "scale_last":
+            ann = dict(list(ann.items())[1:] + [("scale", int)])
+        C = spec_class(type("C", (), {"__annotations__": ann, "xs": [1], "ks": [], "d": {}, "k": K("z"),
+                                      "_prepare_xs": prep_list, "_prepare_ks": prep_ks, "_prepare_d": prep_d,
+                                      "_prepare_k": prep_k, "__module__": "verif_generated", "__qualname__": "C"}))
+        recv = C(scale=2, xs=[1, 2], ks=[K("a", w=1)], d={"p": 1}, k=K("q", w=3))
+        calls = [("reset", lambda: recv.reset()), ("reset_scale_then_reset", lambda: recv.reset_scale().reset())]
+        for a in ("xs", "ks", "d", "k", "scale"):
+            calls.append(("reset_" + a, lambda a=a: getattr(recv, "reset_" + a)()))
+            calls.append(("reset_scale.reset_" + a, lambda a=a: getattr(recv.reset_scale(), "reset_" + a)()))
+        for name, f in calls:
+            try:
+                r = f()
+            except AttributeError:
+                continue
+            n += 1
+            shared = c02_gen.shared_objects(r, recv)
+            if r is recv or shared:
+                bad += 1
+                if bad <= 4:
+                    chk.violation("C02 violated by the implementation: %s() result shares %d mutable object(s) with the receiver (an attribute whose reset was abandoned kept the receiver's own value)"
+                                  % (name, len(shared)),
+                                  {"kind": "reset-survivor", "order": order, "call": name,
+                                   "shared": [repr(o)[:80] for o in shared], "result": repr(r)[:300]},
+                                  sig={"kind": "reset-survivor"})
+    extra["reset_survivor_probe"] = {"cases": n, "failing": bad}
+
+
 def targeted(chk, cases, bad, extra):
     n = 260 if chk.tier == "quick" else 4000
     n_ops = 7 if chk.tier == "quick" else 10
     mine = [c02_gen.gen_case_c02(chk.rng, n_ops) for _ in range(n)]
     c02_gen.report(chk, "C02", 4 | 32, mine, extra, "targeted_histories")
     dnc_subclass_probe(chk, extra)
+    dnc_family_probe(chk, extra)
+    survivor_probe(chk, extra)
     extra["rule"] = extra.get("rule", "") + "; targeted = receiver built from fresh arguments, optional in-place setup, copy-on-write helpers / deepcopy / no-op forms (update_<coll>(MISSING|EMPTY|UNCHANGED), update_<spec attr>(), identity transforms, with_<attr>(sentinel)), then in-place mutation of a result and of the receiver"
 
 
@@ -62,11 +165,14 @@ def main(tier, replay=None):
     if replay:
         import json
         r = json.load(open(replay))
-        if r.get("kind") == "dnc-subclass":
+        probes = {"dnc-subclass": (dnc_subclass_probe, "dnc_subclass_probe"), "dnc-family": (dnc_family_probe, "dnc_family_probe"),
+                  "reset-survivor": (survivor_probe, "reset_survivor_probe")}
+        if r.get("kind") in probes:
             from common import Check
+            fn, key = probes[r["kind"]]
             chk, extra = Check("C02", "quick"), {}
-            dnc_subclass_probe(chk, extra)
-            print("replay:", "still failing" if extra["dnc_subclass_probe"]["failing"] else "passes now", extra)
-            return 1 if extra["dnc_subclass_probe"]["failing"] else 0
+            fn(chk, extra)
+            print("replay:", "still failing" if extra[key]["failing"] else "passes now", extra)
+            return 1 if extra[key]["failing"] else 0
         return inst_check.replay("C02", replay, 4 | 32)
     return inst_check.run("C02", tier, 4, GENS, 160, 3000, ASSUMPTIONS, post=targeted)
